@@ -48,6 +48,10 @@ func heapOpsFor(g *gen.G, richness float64) []heapOp {
 			}
 		}
 	}
+	if g.Chance(0.5) {
+		resetSomeLists(g, reflect.ValueOf(a), 0.25, map[uintptr]bool{})
+		resetSomeLists(g, reflect.ValueOf(b), 0.25, map[uintptr]bool{})
+	}
 	pickNode := func(nl *sbom.NodeList) *sbom.Node {
 		if len(nl.Nodes) == 0 {
 			return g.Node("x", richness)
@@ -142,6 +146,35 @@ type heapObservation struct {
 	before, after       *heapview.Heap
 	opsBefore, opsAfter []heapview.Val
 	results             []heapview.Val
+	spare               *heapview.Heap // the same operands and results, empty slices with spare capacity visible
+	opsSpare, resSpare  []heapview.Val
+}
+
+// resetSomeLists leaves some empty list fields of the message (and of the messages nested in it) empty but
+// owning a backing array, as `x = x[:0]` or a pre-sized make does.
+func resetSomeLists(g *gen.G, v reflect.Value, p float64, seen map[uintptr]bool) {
+	switch v.Kind() {
+	case reflect.Ptr:
+		if v.IsNil() || seen[v.Pointer()] {
+			return
+		}
+		seen[v.Pointer()] = true
+		resetSomeLists(g, v.Elem(), p, seen)
+	case reflect.Struct:
+		for i := 0; i < v.NumField(); i++ {
+			if v.Type().Field(i).IsExported() {
+				resetSomeLists(g, v.Field(i), p, seen)
+			}
+		}
+	case reflect.Slice:
+		if v.Len() == 0 && v.CanSet() && g.Chance(p) {
+			v.Set(reflect.MakeSlice(v.Type(), 0, 1+g.Int(4)))
+			return
+		}
+		for i := 0; i < v.Len(); i++ {
+			resetSomeLists(g, v.Index(i), p, seen)
+		}
+	}
 }
 
 func observe(op heapOp) (ob heapObservation, panicked any) {
@@ -158,11 +191,17 @@ func observe(op heapOp) (ob heapObservation, panicked any) {
 	for _, o := range op.operands {
 		ob.opsAfter = append(ob.opsAfter, ob.after.Add(o))
 	}
+	ob.spare = heapview.New()
+	ob.spare.SpareCap = true
+	for _, o := range op.operands {
+		ob.opsSpare = append(ob.opsSpare, ob.spare.Add(o))
+	}
 	for _, r := range res {
 		if r == nil || (reflect.ValueOf(r).Kind() == reflect.Ptr && reflect.ValueOf(r).IsNil()) {
 			continue
 		}
 		ob.results = append(ob.results, ob.after.Add(r))
+		ob.resSpare = append(ob.resSpare, ob.spare.Add(r))
 	}
 	return
 }
@@ -189,12 +228,13 @@ func sharedLocations(ob heapObservation) []string {
 	if len(ob.results) == 0 {
 		return nil
 	}
-	rr := ob.after.Reach(ob.results...)
-	ro := ob.after.Reach(ob.opsAfter...)
+	// on the view that also sees empty slices with spare capacity
+	rr := ob.spare.Reach(ob.resSpare...)
+	ro := ob.spare.Reach(ob.opsSpare...)
 	var out []string
 	for l := range rr {
 		if ro[l] {
-			c := ob.after.Cells[l]
+			c := ob.spare.Cells[l]
 			switch c.K {
 			case 'M':
 				out = append(out, "message "+c.Kind)
@@ -305,8 +345,12 @@ func runC12(seed int64, n int, dir string, tier string) *Report {
 			if sh := sharedLocations(ob); len(sh) > 0 {
 				rep.Fail(Failure{What: "a copy or combined result shares mutable state with an operand", Detail: fmt.Sprintf("%s: shared: %v", op.name, sh), Input: in})
 			}
-			c := fmt.Sprintf("(HSeparate %s %s %s)", ob.after.Coq(), coqVals(ob.opsAfter), coqVals(ob.results))
+			c := fmt.Sprintf("(HSeparate %s %s %s)", ob.spare.Coq(), coqVals(ob.opsSpare), coqVals(ob.resSpare))
 			if strings.HasSuffix(op.name, ".Copy") {
+				if len(cf.Items) < 6*n {
+					cf.Add(c) // separation, on the view that sees spare capacity; then the copy itself against the model
+					rep.NoteCase(op.name+"/separate"+c[:min(len(c), 4000)], false, in)
+				}
 				// against the model's deep copy
 				c = fmt.Sprintf("(HCopy %s %s %s %s %s)", ob.before.Coq(), heapview.CoqVal(ob.opsBefore[0]), ob.after.Coq(), heapview.CoqVal(ob.opsAfter[0]), heapview.CoqVal(ob.results[0]))
 			}
